@@ -22,7 +22,7 @@ fn b01(b: bool) -> &'static str {
 }
 
 pub fn unit_f64cmp(o: &mut Out, tier: &str, r: &mut Rng) {
-    let n = if tier == "thorough" { 400000 } else { 20000 };
+    let n = sz!(tier, 20000, 400000);
     let special = [
         0f64, -0., 1., -1., f64::MIN_POSITIVE, -f64::MIN_POSITIVE, f64::from_bits(1), -f64::from_bits(1), f64::MAX, f64::MIN,
         f64::INFINITY, f64::NEG_INFINITY, f64::NAN, -f64::NAN, f64::from_bits(0x7ff0_0000_0000_0001), 90., -90., 180., -180.,
@@ -140,7 +140,7 @@ pub fn gen_number_string(r: &mut Rng) -> String {
 }
 
 pub fn unit_parse(o: &mut Out, tier: &str, r: &mut Rng) {
-    let n = if tier == "thorough" { 300000 } else { 12000 };
+    let n = sz!(tier, 12000, 300000);
     for i in 0..n {
         let s = gen_number_string(r);
         let h = hexs(&s);
@@ -352,7 +352,7 @@ pub fn c18(ctx: &mut Ctx, tier: &str, r: &mut Rng, js: &[Value], _reqs: &[String
         ctx.finish(json!({}));
         return;
     }
-    let n = if tier == "thorough" { 60000 } else { 2500 };
+    let n = sz!(tier, 2500, 60000);
     for ty in BTYPES {
         for v in interesting_values(ty, r, n) {
             one_value(ctx, ty, v);
